@@ -27,8 +27,39 @@ type ext struct {
 	replies chan string
 	dbapi   *api.DatabaseAPI
 	opID    int
-	rtRecs  []record.Record
 	rtDB    string
+	prov    *logProvider
+	push    runtime.PushFunc
+}
+
+// logProvider is the value provider of the injected runtime database: it keeps what Set receives under the
+// record's key, answers Get with copies of what it keeps (sorted by key), and logs every Set it receives.
+type logProvider struct {
+	e    *dbx.Exec
+	recs map[string]record.Record // database key -> record
+	sets []string                 // canonical rendering of every record Set received, in order
+}
+
+func (p *logProvider) Get(keyOrPrefix string) ([]record.Record, error) {
+	var keys []string
+	for k := range p.recs {
+		if strings.HasPrefix(k, keyOrPrefix) {
+			keys = append(keys, k)
+		}
+	}
+	sort.Strings(keys)
+	out := make([]record.Record, 0, len(keys))
+	for _, k := range keys {
+		out = append(out, dbx.CopyRecord(p.recs[k]))
+	}
+	return out, nil
+}
+
+// Set may be called with the record locked (Put, setters) or not (Delete): it never locks.
+func (p *logProvider) Set(r record.Record) (record.Record, error) {
+	p.sets = append(p.sets, p.e.ShowRecUnlocked(r))
+	p.recs[r.DatabaseKey()] = dbx.CopyRecord(r)
+	return r, nil
 }
 
 var rtCounter int
@@ -48,6 +79,8 @@ func apiErr(msg string) string {
 		return "notfound"
 	case strings.Contains(msg, "access to database record denied"):
 		return "denied"
+	case strings.Contains(msg, "not implemented"):
+		return "notimpl"
 	case strings.Contains(msg, "format mismatch"):
 		return "err-format"
 	case strings.Contains(msg, "tried to set") || strings.Contains(msg, "does not exist") || strings.Contains(msg, "immutable"):
@@ -104,45 +137,64 @@ var cmpText = map[string]string{"eq": "==", "gt": ">", "ge": ">=", "lt": "<", "l
 func (x *ext) do(e *dbx.Exec, f []string) (string, bool) {
 	switch f[0] {
 	case "rtinit":
-		// rtinit: the case's database becomes an injected runtime registry with one provider at "p/"
+		// rtinit [shadow]: the case's database becomes an injected runtime registry (shadow delete off / on) with
+		// one value provider at "p/" that keeps and logs what its Set receives
+		if len(f) > 2 || (len(f) == 2 && f[1] != "0" && f[1] != "1") {
+			return "bad-op", true
+		}
 		rtCounter++
 		x.rtDB = fmt.Sprintf("vrt%d", rtCounter)
-		if _, err := database.Register(&database.Database{Name: x.rtDB, Description: "verification", StorageType: database.StorageTypeInjected}); err != nil {
+		if _, err := database.Register(&database.Database{Name: x.rtDB, Description: "verification", StorageType: database.StorageTypeInjected,
+			ShadowDelete: len(f) == 2 && f[1] == "1"}); err != nil {
 			return dbx.ErrStr(err), true
 		}
 		reg := runtime.NewRegistry()
 		if err := reg.InjectAsDatabase(x.rtDB); err != nil {
 			return dbx.ErrStr(err), true
 		}
-		_, err := reg.Register("p/", runtime.SimpleValueGetterFunc(func(keyOrPrefix string) ([]record.Record, error) {
-			var out []record.Record
-			for _, r := range x.rtRecs {
-				if strings.HasPrefix(r.DatabaseKey(), keyOrPrefix) {
-					out = append(out, r)
-				}
-			}
-			return out, nil
-		}))
+		x.prov = &logProvider{e: e, recs: map[string]record.Record{}}
+		push, err := reg.Register("p/", x.prov)
 		if err != nil {
 			return dbx.ErrStr(err), true
 		}
+		x.push = push
 		e.UseDB(x.rtDB)
 		return "ok", true
 	case "rtput":
-		if len(f) != 5 || x.rtDB == "" {
+		// the provider's value changes on its own (no Set, nothing logged)
+		if len(f) != 5 || x.prov == nil {
 			return "bad-op", true
 		}
 		r, ok := e.BuildRecord(x.rtDB, f[1], f[2], f[3], f[4])
 		if !ok {
 			return "bad-op", true
 		}
-		kept := x.rtRecs[:0]
-		for _, o := range x.rtRecs {
-			if o.DatabaseKey() != f[1] {
-				kept = append(kept, o)
-			}
+		x.prov.recs[f[1]] = r
+		return "ok", true
+	case "rtsets":
+		// what the provider's Set received since the last rtsets, in order
+		if len(f) != 1 || x.prov == nil {
+			return "bad-op", true
 		}
-		x.rtRecs = append(kept, r)
+		l := x.prov.sets
+		x.prov.sets = nil
+		if len(l) == 0 {
+			return "ok 0", true
+		}
+		return fmt.Sprintf("ok %d %s", len(l), strings.Join(l, " ")), true
+	case "rtpush":
+		// the provider announces its current record through the PushFunc it got from Register
+		if len(f) != 2 || x.prov == nil {
+			return "bad-op", true
+		}
+		r := x.prov.recs[f[1]]
+		if r == nil {
+			return "notfound", true
+		}
+		c := dbx.CopyRecord(r)
+		c.Lock()
+		x.push(c)
+		c.Unlock()
 		return "ok", true
 	case "api":
 		if len(f) < 3 {
@@ -505,34 +557,149 @@ func actorClass(a string) string {
 	return "unprivileged"
 }
 
+// runtimeCase: an injected runtime database (runtime.Registry with a provider that keeps and logs what its Set
+// receives), shadow delete off or on. The provider starts with records of all four flag combinations; then every
+// actor (Local/Internal 00, 01, 10, the privileged one, the database API) reads AND writes: put, put-new, delete,
+// expiry and flag setters, attribute insert, get-and-put-back, batch, purge, API create / update / insert / delete,
+// subscriptions, provider pushes, and the provider changing a value on its own. After every step the provider's
+// Set log and the feeds are drained, so that every Set is attributed to the step that caused it.
 func (g *gen) runtimeCase(emit func(hxlib.Case)) {
 	rng := g.r.Rng
-	lines := []string{"cfg h 0", "rtinit"}
+	sh := g.pick([]string{"0", "1"})
+	lines := []string{"cfg h 0", "rtinit " + sh}
 	keys := []string{"p/a", "p/ab", "p/b", "p/c/d", "p/a/x"}
+	prefixes := []string{"-", "p", "p/", "p/a", "p/c/"}
 	for _, a := range append(actors, struct{ id, l, i string }{"P", "1", "1"}) {
 		lines = append(lines, fmt.Sprintf("if %s %s %s n 0 0 0 0", a.id, a.l, a.i))
 	}
-	for i := 0; i < 4+rng.Intn(5); i++ {
-		_, _, l := g.rec(keys, []string{"T", "J", "R"})
-		lines = append(lines, "rtput "+l)
+	nsub := 0
+	everRaw := map[string]bool{}
+	lastForm := map[string]string{}
+	step := func(l ...string) {
+		lines = append(lines, l...)
+		lines = append(lines, "rtsets")
+		for i := 1; i <= nsub; i++ {
+			lines = append(lines, fmt.Sprintf("feed s%d", i))
+		}
+	}
+	note := func(k, form string) {
+		lastForm[k] = form
+		if form == "R" {
+			everRaw[k] = true
+		}
+	}
+	// all four flag combinations, plainly visible
+	for i, fl := range []string{"0,0", "1,0", "0,1", "1,1"} {
+		g.marker++
+		form := g.pick([]string{"T", "J"})
+		note(keys[i], form)
+		step(fmt.Sprintf("rtput %s %s 0,0,0,0,%s %s", keys[i], form, fl, dbx.GenFields(rng, form, fmt.Sprintf("m%d", g.marker))))
+	}
+	for i := 0; i < rng.Intn(4); i++ {
+		k, form, l := g.rec(keys, []string{"T", "J", "J", "R"})
+		note(k, form)
+		step("rtput " + l)
 	}
 	ids := []string{"A", "B", "C", "P"}
-	for i := 0; i < 25; i++ {
+	n := 30 + rng.Intn(40)
+	for i := 0; i < n; i++ {
 		a := ids[rng.Intn(4)]
-		switch rng.Intn(4) {
-		case 0:
-			lines = append(lines, "get "+a+" "+g.pick(keys))
-		case 1:
-			lines = append(lines, "exists "+a+" "+g.pick(keys))
-		case 2:
-			lines = append(lines, fmt.Sprintf("query %s %s -", a, g.pick([]string{"-", "p", "p/", "p/a", "p/c/"})))
+		k := g.pick(keys)
+		cls := "op:runtime:"
+		switch x := rng.Intn(100); {
+		case x < 8:
+			step("get " + a + " " + k)
+			cls += "get"
+		case x < 11:
+			step("exists " + a + " " + k)
+			cls += "exists"
+		case x < 18:
+			step(fmt.Sprintf("query %s %s -", a, g.pick(prefixes)))
+			cls += "query"
+		case x < 34:
+			k2, form, l := g.rec(keys, []string{"T", "J", "J", "R"})
+			note(k2, form)
+			verb := "put"
+			if rng.Intn(3) == 0 {
+				verb = "putnew"
+			}
+			step(verb + " " + a + " " + l)
+			cls += verb
+		case x < 38:
+			step("reput " + a + " " + k)
+			cls += "get-then-put-back"
+		case x < 44:
+			step("del " + a + " " + k)
+			cls += "delete"
+		case x < 49:
+			step(fmt.Sprintf("setabs %s %s %s", a, k, g.pick([]string{"5", "@+3600", "0"})))
+			cls += "setabs"
+		case x < 52:
+			step(fmt.Sprintf("setrel %s %s 3600", a, k))
+			cls += "setrel"
+		case x < 58:
+			step(g.pick([]string{"mksecret", "mkcrown"}) + " " + a + " " + k)
+			cls += "mkflag"
+		case x < 63:
+			if everRaw[k] || lastForm[k] == "" {
+				continue
+			}
+			step(fmt.Sprintf("insert %s %s %s %s", a, k, g.pick([]string{"S", "I", "Q"}), g.pick([]string{"s:ins", "i:42"})))
+			cls += "insert"
+		case x < 66:
+			if a == "P" {
+				step("pmbegin P", "pmend P") // no Batcher behind an injected database: only the end of the batch is probed
+			} else {
+				_, _, l := g.rec(keys, []string{"J"})
+				step("pmbegin "+a, "pmput "+a+" "+l, "pmend "+a)
+			}
+			cls += "putmany"
+		case x < 69:
+			step(fmt.Sprintf("purge %s %s -", a, g.pick(prefixes)))
+			cls += "purge"
+		case x < 72:
+			if nsub < 3 {
+				nsub++
+				step(fmt.Sprintf("sub %s s%d %s -", a, nsub, g.pick([]string{"p/", "p/a", "p/c/"})))
+			}
+			cls += "subscribe"
+		case x < 75:
+			step("rtpush " + k)
+			a, cls = "P", cls+"provider-push"
+		case x < 79:
+			k2, form, l := g.rec(keys, []string{"T", "J", "R"})
+			note(k2, form)
+			step("rtput " + l)
+			a, cls = "P", cls+"provider-changes-value"
+		case x < 83:
+			step("api get " + k)
+			a, cls = "api", cls+"get"
+		case x < 86:
+			step(fmt.Sprintf("api query %s -", g.pick([]string{"p/", "p/a", "p/c/"})))
+			a, cls = "api", cls+"query"
+		case x < 92:
+			g.marker++
+			note(k, "J")
+			step(fmt.Sprintf("api %s %s %s", g.pick([]string{"create", "update"}), k, dbx.GenFields(rng, "T", fmt.Sprintf("m%d", g.marker))))
+			a, cls = "api", cls+"put"
+		case x < 96:
+			step("api delete " + k)
+			a, cls = "api", cls+"delete"
 		default:
-			_, _, l := g.rec(keys, []string{"T", "J"})
-			lines = append(lines, "rtput "+l)
+			if everRaw[k] || (lastForm[k] != "J" && lastForm[k] != "T") {
+				continue
+			}
+			step(fmt.Sprintf("api insert %s %s %s", k, g.pick([]string{"S", "I"}), g.pick([]string{"s:apiins", "i:43"})))
+			a, cls = "api", cls+"insert"
 		}
-		g.r.Count("op:runtime:" + actorClass(a))
+		if a == "api" {
+			g.r.Count(cls + ":api")
+		} else {
+			g.r.Count(cls + ":" + actorClass(a))
+		}
 	}
-	emit(hxlib.Case{Lines: lines, NonTrivial: true, Kind: "runtime-registry"})
+	step("query P p/ -", "query A p/ -", "query B p/ -", "query C p/ -", "api query p/ -")
+	emit(hxlib.Case{Lines: lines, NonTrivial: true, Kind: "runtime-registry:" + sh})
 }
 
 func generate(r *hxlib.Run, emit0 func(hxlib.Case)) {
@@ -576,6 +743,9 @@ var (
 	outcomeLock sync.Mutex
 )
 
+// dbxParseList parses `ok <n> <tok>…`.
+func dbxParseList(out string) (int, []string, string, bool) { return dbx.ParseListOut(out) }
+
 func markersIn(s string) []string {
 	var out []string
 	for i := 0; i+1 < len(s); i++ {
@@ -606,6 +776,26 @@ func monitor(c hxlib.Case, outs []string) (vs []hxlib.Violation) {
 		vs = append(vs, hxlib.Violation{Sig: sig, What: fmt.Sprintf("op %d %q: %s", i, c.Lines[i], what), Lines: c.Lines[:i+1], Output: outs[:i+1]})
 	}
 	o.Step(-1, "if @api 0 0 n 0 0 0 0", "ok")
+	// injected runtime database: what the provider holds per key (flags, expiry, deletion stamp), from the
+	// provider's own changes (rtput) and from the log of its Set calls (rtsets), and the step a Set belongs to
+	type pmeta struct {
+		secret, crown bool
+		exp, del      string
+	}
+	rtProv := map[string]*pmeta{}
+	parsePMeta := func(meta string) *pmeta {
+		m := strings.Split(meta, ",")
+		if len(m) != 6 {
+			return nil
+		}
+		return &pmeta{secret: m[4] == "1", crown: m[5] == "1", exp: m[2], del: m[3]}
+	}
+	var lastOp struct {
+		valid bool
+		p     priv
+		name  string
+		line  string
+	}
 	learn := func(actor string, f []string, key, form, meta, payload string) {
 		mk := markersIn(payload)
 		if len(mk) == 0 {
@@ -643,11 +833,51 @@ func monitor(c hxlib.Case, outs []string) (vs []hxlib.Violation) {
 			p, check, actor = priv{false, false}, true, "api"
 		case "rtput":
 			learn("", f, f[1], f[2], f[3], f[4])
+			if out == "ok" {
+				rtProv[f[1]] = parsePMeta(f[3])
+			}
+		case "rtpush":
+		case "rtsets":
+			// "never … modified, re-flagged, deleted … through an interface that is not internal / not local … on
+			// injected runtime databases": no Set reaches the provider for a key whose current record is visible
+			// and not permitted for the actor of the step that caused the Set
+			_, toks, _, ok := dbxParseList(out)
+			if !ok {
+				add(i, "C03:malformed-output:rtsets", out)
+				break
+			}
+			for _, t := range toks {
+				pt := strings.SplitN(t, "~", 3)
+				if len(pt) != 3 {
+					add(i, "C03:malformed-output:rtsets", t)
+					continue
+				}
+				old := rtProv[pt[0]]
+				if lastOp.valid && !(lastOp.p.l && lastOp.p.i) && old != nil {
+					deleted := old.del != "0" && !strings.HasPrefix(old.del, "-")
+					ec := dbx.TsClass(old.exp)
+					visible := !deleted && (ec == "none" || ec == "future")
+					if visible && ((old.secret && !lastOp.p.i) || (old.crown && !lastOp.p.l)) {
+						add(i, "C03:runtime-set-on-non-permitted-record:"+lastOp.name, fmt.Sprintf("%q by an actor with local=%v internal=%v made the provider's Set receive %s while the provider's record under %s was visible and stored as secret=%v crownjewel=%v",
+							lastOp.line, lastOp.p.l, lastOp.p.i, t, pt[0], old.secret, old.crown))
+					}
+				}
+				if nm := parsePMeta(pt[1]); nm != nil {
+					rtProv[pt[0]] = nm
+				}
+			}
+			lastOp.valid = false
 		default:
 			if len(f) > 1 {
 				if pp, ok := privs[f[1]]; ok {
 					p, check, actor = pp, true, f[1]
 				}
+			}
+		}
+		if check && f[0] != "feed" {
+			lastOp.valid, lastOp.p, lastOp.name, lastOp.line = true, p, f[0], l
+			if f[0] == "api" {
+				lastOp.name = "api-" + f[1]
 			}
 		}
 		if check && !(p.l && p.i) {
@@ -748,7 +978,7 @@ func main() {
 	defer dbx.Cleanup()
 	hxlib.Main(&hxlib.Harness{
 		Prop:     "C03",
-		Rule: "a case is one history on one backend (hashmap/bbolt/fstree/badger x shadow-delete, or an injected runtime registry): a privileged interface (sometimes with AlwaysMakeSecret / AlwaysMakeCrownjewel) writes records with all four flag combinations, each carrying a unique marker string; interfaces with Local/Internal = 00, 01, 10 (one of them possibly with a read cache, then used exclusively) and the database API (NewInterface(nil)) get, test existence, query, put, put-new, delete, set expiry, re-flag, insert attributes, batch-write, purge and subscribe; feeds are drained after every step. Outputs are compared with the compiled Lean model line by line; the monitor checks that no output of a non-privileged actor contains the marker of a record version that actor may not see, and replays the case on a reference map with the permission rules (denied / exists-only / no write-through). Regression cases walk every path once per backend. Distinct by the hash of the lines.",
+		Rule: "a case is one history on one backend (hashmap/bbolt/fstree/badger x shadow-delete) or on an injected runtime database (runtime.Registry whose value provider keeps and logs every record its Set receives, starts with records of all four flag combinations and also changes and pushes values on its own; all actors read and write there: put, put-new, delete, expiry and flag setters, attribute insert, get-and-put-back, batch, purge, API create/update/insert/delete; the Set log and the feeds are drained after every step and the monitor checks that no Set reaches the provider for a key whose current record is visible and not permitted for the actor of that step): a privileged interface (sometimes with AlwaysMakeSecret / AlwaysMakeCrownjewel) writes records with all four flag combinations, each carrying a unique marker string; interfaces with Local/Internal = 00, 01, 10 (one of them possibly with a read cache, then used exclusively) and the database API (NewInterface(nil)) get, test existence, query, put, put-new, delete, set expiry, re-flag, insert attributes, batch-write, purge and subscribe; feeds are drained after every step. Outputs are compared with the compiled Lean model line by line; the monitor checks that no output of a non-privileged actor contains the marker of a record version that actor may not see, and replays the case on a reference map with the permission rules (denied / exists-only / no write-through). Regression cases walk every path once per backend. Distinct by the hash of the lines.",
 		Extra: func(*hxlib.Run) map[string]any {
 			return map[string]any{"unprivileged_outcomes": outcomes}
 		},
